@@ -220,6 +220,27 @@ func isFactoryMap(t types.Type, iface *types.Interface) (*types.Map, bool) {
 	return nil, false
 }
 
+// recordMapField: a small record around a factory map – exactly one field is the map, whatever else it has are plain
+// labels (strings, numbers, booleans: a name for error messages, say). Returns the map field's index, or -1.
+func recordMapField(sv *types.Struct, iface *types.Interface) (int, *types.Map) {
+	idx := -1
+	var mt *types.Map
+	for i := 0; i < sv.NumFields(); i++ {
+		ft := sv.Field(i).Type()
+		if m, ok := isFactoryMap(ft, iface); ok {
+			if idx >= 0 {
+				return -1, nil
+			}
+			idx, mt = i, m
+			continue
+		}
+		if _, isB := ft.Underlying().(*types.Basic); !isB {
+			return -1, nil
+		}
+	}
+	return idx, mt
+}
+
 func (u *Universe) discoverTables() error {
 	p := u.P
 	for _, pk := range p.Pkgs {
@@ -238,9 +259,9 @@ func (u *Universe) discoverTables() error {
 			fieldIdx := -1
 			if !ok {
 				// a small record around the map (a factory type with Register/New methods): exactly one field, the map
-				if sv, isStruct := g.Type().(*types.Pointer).Elem().Underlying().(*types.Struct); isStruct && sv.NumFields() == 1 {
-					if m2, ok2 := isFactoryMap(sv.Field(0).Type(), u.BinaryCodecIface); ok2 {
-						mt, ok, fieldIdx = m2, true, 0
+				if sv, isStruct := g.Type().(*types.Pointer).Elem().Underlying().(*types.Struct); isStruct {
+					if fi, m2 := recordMapField(sv, u.BinaryCodecIface); fi >= 0 {
+						mt, ok, fieldIdx = m2, true, fi
 					}
 				}
 			}
@@ -248,9 +269,9 @@ func (u *Universe) discoverTables() error {
 			if !ok {
 				// … or a pointer to such a record, set once by the variable's initialiser (`var t = codec.NewFactoryTable[K]()`)
 				if pt, isP := g.Type().(*types.Pointer).Elem().Underlying().(*types.Pointer); isP {
-					if sv, isStruct := pt.Elem().Underlying().(*types.Struct); isStruct && sv.NumFields() == 1 {
-						if m2, ok2 := isFactoryMap(sv.Field(0).Type(), u.BinaryCodecIface); ok2 {
-							mt, ok, fieldIdx, ptrRecord = m2, true, 0, true
+					if sv, isStruct := pt.Elem().Underlying().(*types.Struct); isStruct {
+						if fi, m2 := recordMapField(sv, u.BinaryCodecIface); fi >= 0 {
+							mt, ok, fieldIdx, ptrRecord = m2, true, fi, true
 						}
 					}
 				}
@@ -708,6 +729,8 @@ func (u *Universe) classifyTableRef(t *Table, fn *ssa.Function, in ssa.Instructi
 								addFn(&t.Registrar, fn)
 								continue
 							}
+						} else if loadOnlyAddr(r) {
+							continue
 						}
 						okAll = false
 						t.OtherRefs = append(t.OtherRefs, r)
@@ -779,6 +802,9 @@ func (u *Universe) classifyMapValue(t *Table, fn *ssa.Function, ld ssa.Value) {
 	{
 		allOK := true
 		for _, r := range *ld.Referrers() {
+			if mapQueryUse(r, ld, 0) {
+				continue // asks whether a key is there, how many there are, which keys: no factory leaves the table this way
+			}
 			switch r := r.(type) {
 			case *ssa.Lookup:
 				if r.X == ld {
@@ -950,6 +976,76 @@ func paramMapUse(call *ssa.Call, v ssa.Value, depth int) string {
 	return res
 }
 
+// mapQueryUse: the instruction r uses the map value v only to ask about its keys: a comma-ok look-up whose value is
+// never taken, len, a range whose values are never taken, or a call of a module function that does only such things
+// with it. Nothing registered in the table can leave it – or be replaced – this way.
+func mapQueryUse(r ssa.Instruction, v ssa.Value, depth int) bool {
+	unusedExtract := func(tuple ssa.Value, idx int) bool {
+		for _, x := range *tuple.Referrers() {
+			if ex, ok := x.(*ssa.Extract); ok && ex.Index == idx {
+				for _, u := range *ex.Referrers() {
+					if _, dbg := u.(*ssa.DebugRef); !dbg {
+						return false
+					}
+				}
+			}
+		}
+		return true
+	}
+	switch r := r.(type) {
+	case *ssa.Lookup:
+		return r.X == v && r.CommaOk && unusedExtract(r, 0)
+	case *ssa.Range:
+		if r.X != v {
+			return false
+		}
+		for _, n := range *r.Referrers() {
+			nx, ok := n.(*ssa.Next)
+			if !ok {
+				if _, dbg := n.(*ssa.DebugRef); dbg {
+					continue
+				}
+				return false
+			}
+			if !unusedExtract(nx, 2) {
+				return false
+			}
+		}
+		return true
+	case *ssa.Call:
+		if b, ok := r.Call.Value.(*ssa.Builtin); ok {
+			return b.Name() == "len" && len(r.Call.Args) == 1 && r.Call.Args[0] == v
+		}
+		callee := r.Call.StaticCallee()
+		if callee == nil || callee.Blocks == nil || depth > 3 || r.Call.IsInvoke() {
+			return false
+		}
+		idx := -1
+		for i, a := range r.Call.Args {
+			if a == v {
+				if idx >= 0 {
+					return false
+				}
+				idx = i
+			}
+		}
+		if idx < 0 || idx >= len(callee.Params) {
+			return false
+		}
+		p := callee.Params[idx]
+		for _, u := range *p.Referrers() {
+			if _, dbg := u.(*ssa.DebugRef); dbg {
+				continue
+			}
+			if !mapQueryUse(u, p, depth+1) {
+				return false
+			}
+		}
+		return true
+	}
+	return false
+}
+
 // fieldMapUse: fa is the address of the map field of a table record; what is done with the map? ("lookup", "update", "")
 func fieldMapUse(fa *ssa.FieldAddr, depth int) string {
 	res := "lookup"
@@ -1032,8 +1128,14 @@ func structMapUse(call *ssa.Call, v ssa.Value, idx int, depth int) string {
 		switch r := r.(type) {
 		case *ssa.DebugRef:
 		case *ssa.FieldAddr:
-			if r.X != p || r.Field != idx {
+			if r.X != p {
 				return ""
+			}
+			if r.Field != idx {
+				if !loadOnlyAddr(r) {
+					return ""
+				}
+				continue // a label of the record read (the name used in the error message)
 			}
 			sub := fieldMapUse(r, depth+1)
 			if sub == "" {
@@ -1055,6 +1157,26 @@ func structMapUse(call *ssa.Call, v ssa.Value, idx int, depth int) string {
 		}
 	}
 	return res
+}
+
+// loadOnlyAddr: the address is only loaded from.
+func loadOnlyAddr(v ssa.Value) bool {
+	refs := v.Referrers()
+	if refs == nil {
+		return false
+	}
+	for _, r := range *refs {
+		switch l := r.(type) {
+		case *ssa.DebugRef:
+		case *ssa.UnOp:
+			if l.Op != token.MUL {
+				return false
+			}
+		default:
+			return false
+		}
+	}
+	return true
 }
 
 func addFn(l *[]*ssa.Function, fn *ssa.Function) {
